@@ -126,6 +126,11 @@ type Rig struct {
 	total   int            // outcomes already handed out by Sync
 	alive   int            // accept loops still running
 	Final   []AcceptResult // non-temporary results that ended accept loops
+	// StallIsResult: when the listener stops producing outcomes although accept
+	// loops are still inside Accept (a handshake callback that never returns), Sync
+	// returns what it has with Stalled set instead of panicking
+	StallIsResult bool
+	Stalled       bool
 }
 
 func NewRig(w *World, cfg RigConfig) *Rig {
@@ -274,6 +279,13 @@ func (r *Rig) Sync() []AcceptResult {
 			r.results = nil
 			return out
 		}
+		if r.StallIsResult && time.Now().After(deadline.Add(-35*time.Second)) {
+			r.Stalled = true
+			out := append([]AcceptResult(nil), r.results...)
+			r.total += len(r.results)
+			r.results = nil
+			return out
+		}
 		if time.Now().After(deadline) {
 			panic("rig: sentinel connection was never processed (accept loop stopped?)")
 		}
@@ -304,7 +316,7 @@ func (r *Rig) Close() []AcceptResult {
 	go func() { r.wg.Wait(); close(done) }()
 	select {
 	case <-done:
-	case <-time.After(30 * time.Second):
+	case <-time.After(map[bool]time.Duration{false: 30 * time.Second, true: time.Second}[r.Stalled]):
 	}
 	r.mu.Lock()
 	for _, x := range r.results {
